@@ -1,0 +1,65 @@
+// SPDX-FileCopyrightText: 2026 The Pion community <https://pion.ly>
+// SPDX-License-Identifier: MIT
+
+//go:build verif
+
+// Contracts (comment-only) for property C04: connection-state lifecycle and
+// liveness timing. Durations are nanoseconds (time.Duration is an int64).
+
+package ice
+
+// The statement's timing table: with silence s, disconnected timeout dt and
+// total time to failure T (0 disables either):
+//@ spec func isDisc(s int, dt int) bool = dt != 0 && s > dt
+//@ spec func isFail(s int, total int) bool = total != 0 && s > total
+
+// allowedEdge(old, new): the lifecycle graph of the statement
+// (New=1 Checking=2 Connected=3 Failed=5 Disconnected=6 Closed=7).
+//@ spec func allowedEdge(o int, n int) bool = (o == 1 && n == 2) || (o == 2 && (n == 3 || n == 5)) || (o == 3 && (n == 6 || n == 5)) || (o == 6 && (n == 3 || n == 5)) || ((o == 3 || o == 6 || o == 5) && n == 2) || n == 7
+
+//@ func (*Agent).getSelectedPair
+//@   props C04 C03 C07
+//@   pure
+//@   ensures typed: result == ite(istype(a.selectedPair, *CandidatePair), a.selectedPair.payload, nil)
+
+//@ func (*Agent).connectionStateForDisconnection
+//@   props C04
+//@   pure
+//@   ensures range: result == ConnectionStateConnected || result == ConnectionStateDisconnected || result == ConnectionStateFailed
+//@   ensures connected-iff-within-both: (result == ConnectionStateConnected) == (!isDisc(disconnectedTime, a.disconnectedTimeout) && !isFail(disconnectedTime, totalTimeToFailure))
+//@   ensures disconnected-needs-timeout: result == ConnectionStateDisconnected ==> isDisc(disconnectedTime, a.disconnectedTimeout)
+//@   ensures failed-needs-deadline: result == ConnectionStateFailed ==> isFail(disconnectedTime, totalTimeToFailure)
+//@   ensures failed-when-due: isFail(disconnectedTime, totalTimeToFailure) && (!isDisc(disconnectedTime, a.disconnectedTimeout) || a.connectionState == ConnectionStateDisconnected || a.connectionState == ConnectionStateFailed) ==> result == ConnectionStateFailed
+//@   ensures disconnected-first: isFail(disconnectedTime, totalTimeToFailure) && isDisc(disconnectedTime, a.disconnectedTimeout) && a.connectionState != ConnectionStateDisconnected && a.connectionState != ConnectionStateFailed ==> result == ConnectionStateDisconnected
+//@   ensures disconnected-only: !isFail(disconnectedTime, totalTimeToFailure) && isDisc(disconnectedTime, a.disconnectedTimeout) ==> result == ConnectionStateDisconnected
+//@   ensures no-direct-failure-with-timeout: result == ConnectionStateFailed && a.connectionState == ConnectionStateConnected ==> !isDisc(disconnectedTime, a.disconnectedTimeout)
+
+//@ func (*Agent).initialCheckingTimeout
+//@   props C04
+//@   pure
+//@   ensures disabled: a.failedTimeout == 0 ==> result == 0
+//@   ensures lite-default: a.failedTimeout != 0 && a.lite && !a.disconnectedTimeoutExplicit ==> result == 5000000000 + a.failedTimeout
+//@   ensures configured: a.failedTimeout != 0 && !(a.lite && !a.disconnectedTimeoutExplicit) ==> result == a.disconnectedTimeout + a.failedTimeout
+
+//@ func (*Agent).validateSelectedPair
+//@   props C04
+//@   requires C04 timeouts-non-negative: a.disconnectedTimeout >= 0 && a.failedTimeout >= 0
+//@   site call connectionStateForDisconnection#1 assert total-time-to-failure: arg2 == ite(a.failedTimeout == 0, 0, a.failedTimeout + a.disconnectedTimeout)
+//@   site call connectionStateForDisconnection#1 assert only-with-selected-pair: selectedPair != nil
+//@   site call updateConnectionState#1 assert connected-to-failed-only-without-disconnected-timeout: a.connectionState == ConnectionStateConnected && arg1 == ConnectionStateFailed ==> a.disconnectedTimeout == 0
+//@   site call updateConnectionState#1 assert tick-edges: a.connectionState == ConnectionStateConnected || a.connectionState == ConnectionStateDisconnected ==> a.connectionState == arg1 || allowedEdge(a.connectionState, arg1)
+//@   ensures no-selected-pair-no-effect: old(a.getSelectedPair()) == nil ==> !result && unchangedExcept()
+//@   ensures reports-selected: result == (old(a.getSelectedPair()) != nil)
+
+//@ func (*Agent).updateConnectionState
+//@   props C04 C06
+//@   site call EnqueueConnectionState#1 assert C04 notifies-exactly-the-new-state: arg1 == newState && a.connectionState == newState
+//@   site call EnqueueConnectionState#1 assert C04 only-on-change: old(a.connectionState) != newState
+//@   site call EnqueueConnectionState#1 assert C04 C06 released-before-failed: newState == ConnectionStateFailed ==> len(a.checklist) == 0 && len(a.pairsByID) == 0 && len(a.pendingBindingRequests) == 0
+//@   ensures C04 same-state-is-silent: old(a.connectionState) == newState ==> unchangedExcept()
+//@   ensures C04 state-stored: a.connectionState == newState
+//@   ensures C04 C03 only-failed-releases: newState != ConnectionStateFailed ==> unchangedExcept("H_ice.Agent.connectionState", "H_ice.handlerNotifier.*", "E_ice.ConnectionState")
+
+// The connection state has one writer.
+//@ enumerate C04 stores ice.Agent.connectionState in (*Agent).updateConnectionState, createAgentBase
+//@ enumerate C04 calls ice.(*handlerNotifier).EnqueueConnectionState in (*Agent).updateConnectionState
